@@ -189,7 +189,9 @@ def families(tier='quick', seed=0):
         add('list-all', nm, {'idents': {'A': M((K('f', 'all'), L(*[S(x) for x in l])))}, 'cond': ('id', 'A')})
         for n in range(0, len(l) + 2):
             add('list-of', '%s|%d' % (nm, n), {'idents': {'A': M((K('f', ('of', n)), L(*[S(x) for x in l])))}, 'cond': ('id', 'A')})
-    for l, nm in (([('i', 1), ('i', 2)], '1,2'), ([('i', 1), S('a')], '1,a'), ([('b', True), S('a')], 'true,a'),
+    for l, nm in (([S('<=1.5'), S('>100.0')], '<=1.5,>100.0'), ([S('>=0.5'), S('<0.25')], '>=0.5,<0.25'), ([S('<=1'), S('>5')], '<=1,>5'),
+                  ([S('=2'), S('>=7'), S('<-1')], '=2,>=7,<-1'), ([S('=1.5'), S('<=0.5'), S('>2.5')], '=1.5,<=0.5,>2.5'),
+                  ([('i', 1), ('i', 2)], '1,2'), ([('i', 1), S('a')], '1,a'), ([('b', True), S('a')], 'true,a'),
                   ([S('>1'), S('<5')], '>1,<5'), ([('null',), S('a')], 'null,a'), ([('f', 1.5), ('i', 2)], '1.5,2'),
                   ([S('a')], 'a-only'), ([('i', 1)], '1-only')):
         add('list-mixed', nm, single('f', L(*l)))
@@ -273,6 +275,12 @@ def families(tier='quick', seed=0):
     add('modifier', 'str(f) numbers only', {'idents': {'A': M((K('f', 'str'), L(('i', 1), ('i', 2))))}, 'cond': ('id', 'A')})
     add('modifier', 'str(f) bool only', {'idents': {'A': M((K('f', 'str'), L(('b', True))))}, 'cond': ('id', 'A')})
     add('modifier', 'str(f) number then string', {'idents': {'A': M((K('f', 'str'), L(('i', 1), S('a*'))))}, 'cond': ('id', 'A')})
+    # a modifier key followed by plain keys in the same mapping (the modifier must not leak), both orders
+    add('modifier', '{str(f), g}', {'idents': {'A': M((K('f', 'str'), S('4*')), (K('g'), S('0')))}, 'cond': ('id', 'A')})
+    add('modifier', '{g, str(f)}', {'idents': {'A': M((K('g'), S('0')), (K('f', 'str'), S('4*')))}, 'cond': ('id', 'A')})
+    add('modifier', '{not(f), g}', {'idents': {'A': M((K('f', 'not'), S('a')), (K('g'), S('b')))}, 'cond': ('id', 'A')})
+    add('modifier', '{int(f), g}', {'idents': {'A': M((K('f', 'int'), ('i', 1)), (K('g'), S('a*')))}, 'cond': ('id', 'A')})
+    add('modifier', '{flt(f), g, h}', {'idents': {'A': M((K('f', 'flt'), S('>=1.5')), (K('g'), ('i', 2)), (K('h'), S('*c')))}, 'cond': ('id', 'A')})
     add('modifier', 'int(f) list', {'idents': {'A': M((K('f', 'int'), L(('i', 1), S('>5'))))}, 'cond': ('id', 'A')})
     # conditions with casts
     Z = M((K('f'), S('*')))
@@ -310,6 +318,9 @@ def families(tier='quick', seed=0):
                                                    'cond': ('and', ('and', ('id', 'A'), ('id', 'B')), ('id', 'C'))})
     add('shake', 'A or B or C nested same key', {'idents': {'A': nA, 'B': nB, 'C': nC},
                                                  'cond': ('or', ('or', ('id', 'A'), ('id', 'B')), ('id', 'C'))})
+    cmpA = ('cmp', '>', ('int', 'f'), ('int', 'g'))
+    cmpB = ('cmp', '<', ('int', 'f'), ('int', 'g'))
+    add('matrix', 'one row plus comparisons', {'idents': {'A': M((K('f'), ('i', 1)))}, 'cond': ('or', ('or', ('id', 'A'), cmpA), cmpB)})
     add('shake', 'A or B same field', {'idents': {'A': M((K('f'), S('a*'))), 'B': M((K('f'), S('*b')))}, 'cond': ('or', ('id', 'A'), ('id', 'B'))})
     add('shake', 'A or B or C same field', {'idents': {'A': M((K('f'), S('a*'))), 'B': M((K('f'), S('*b'))), 'C': M((K('f'), S('ic')))},
                                             'cond': ('or', ('or', ('id', 'A'), ('id', 'B')), ('id', 'C'))})
@@ -337,7 +348,8 @@ def select(tier, seed, fams=None):
     return allt
 
 
-MUST = {'list/i?a,i?b', 'list/?a,?b', 'list/a,?a,ib', 'list/a*,*b', 'list/ia,ib*', 'list/a*,*a,*a*,a', 'list/ab,b', 'list/a*,*b,ic',
+MUST = {'list-mixed/<=1.5,>100.0', 'list-mixed/=2,>=7,<-1', 'modifier/{str(f), g}', 'modifier/{not(f), g}', 'modifier/{int(f), g}',
+        'list/i?a,i?b', 'list/?a,?b', 'list/a,?a,ib', 'list/a*,*b', 'list/ia,ib*', 'list/a*,*a,*a*,a', 'list/ab,b', 'list/a*,*b,ic',
         'list-all/a*,*b', 'list-all/i?a,i?b', 'list-all/ab,b', 'list-of/a*,*b|2', 'list-of/?a,?b|2', 'list-of/ia,ib*|1', 'list-of/a,b|0',
         'single/iA*', 'single/*a*', 'single/"a"', 'regex/i?a', 'number/>1', 'number/<=0.5', 'scalar/int1', 'scalar/null',
         'quant-short/of2:a-only', 'quant-short/of0:a-only', 'quant-short/all:>1,<5', 'quant-ident/of(seq,2)', 'quant-ident/all(list)',
